@@ -49,7 +49,15 @@ class ToGFA1:
       gfapy.error.ValueError: If the edge is internal
     """
     self._check_not_internal("overlap")
-    return self.alignment if self._is_sid1_from() else self.alignment.complement()
+    if self._is_sid1_from():
+      return self.alignment
+    # the roles of the two segments are exchanged, not their strands:
+    # I and D are exchanged, but the order of the operations is unchanged
+    # (CIGAR.complement() also reverses it)
+    overlap = self.alignment.complement()
+    if isinstance(overlap, gfapy.CIGAR):
+      overlap.reverse()
+    return overlap
 
   @property
   def oriented_from(self):
